@@ -1,6 +1,8 @@
 package lemmas
 
 import (
+	"io"
+
 	"github.com/alttpo/snes/emulator/bus"
 	"github.com/alttpo/snes/emulator/cpu65c816"
 	"github.com/alttpo/snes/emulator/cpualt"
@@ -264,3 +266,52 @@ func StepWDM65(c *cpu65c816.CPU, ram *[1 << 24]byte, op byte) { c.Step() }
 //@   ensures callarg("func.call", 1) == old(ram[uint32(c.RK)<<16|uint32(c.PC+1)]) && c.WDM == old(ram[uint32(c.RK)<<16|uint32(c.PC+1)])
 
 func StepWDMAlt(c *cpualt.CPU, ram *[1 << 24]byte, op byte) { c.Step() }
+
+// ---- C14: a trace line is truthful and producing it does not perturb the machine ----
+// Layout of the line after the decimal cycle count (n0 = len-70): TAB K(2) ':' PC(4) '|' bytes(11) '|' name(3) ' '
+// operand(13) '|' registers(21) ' ' flags(8) NL. The frame clause (assigns only the bus debug fields) is the
+// non-perturbation half: CPU state and all of RAM are unchanged.
+
+//@ lemma Trace65 property C14
+//@   harness flat65 cpu=c ram=ram op=op
+//@   nosafety
+//@   ensures len(ret1) >= w65c816.TraceTail(op)+1 && len(ret1) <= w65c816.TraceTail(op)+20
+//@   ensures ret1[len(ret1)-w65c816.TraceTail(op)+0] == '\t' && ret1[len(ret1)-w65c816.TraceTail(op)+3] == ':' && ret1[len(ret1)-w65c816.TraceTail(op)+8] == '|' && ret1[len(ret1)-w65c816.TraceTail(op)+20] == '|' && ret1[len(ret1)-w65c816.TraceTail(op)+24] == ' ' && ret1[len(ret1)-70+38] == '|' && ret1[len(ret1)-70+60] == ' ' && ret1[len(ret1)-70+69] == '\n'
+//@   ensures w65c816.HexVal(ret1[len(ret1)-w65c816.TraceTail(op)+1])*16 + w65c816.HexVal(ret1[len(ret1)-w65c816.TraceTail(op)+2]) == uint32(c.RK)
+//@   ensures w65c816.HexVal(ret1[len(ret1)-w65c816.TraceTail(op)+4])*4096 + w65c816.HexVal(ret1[len(ret1)-w65c816.TraceTail(op)+5])*256 + w65c816.HexVal(ret1[len(ret1)-w65c816.TraceTail(op)+6])*16 + w65c816.HexVal(ret1[len(ret1)-w65c816.TraceTail(op)+7]) == uint32(c.PC)
+//@   ensures w65c816.HexVal(ret1[len(ret1)-w65c816.TraceTail(op)+9])*16 + w65c816.HexVal(ret1[len(ret1)-w65c816.TraceTail(op)+10]) == uint32(op)
+//@   ensures w65c816.Len(op, c.M == 0, c.X == 0) > 1 ==> ret1[len(ret1)-w65c816.TraceTail(op)+11] == ' ' && w65c816.HexVal(ret1[len(ret1)-w65c816.TraceTail(op)+12])*16 + w65c816.HexVal(ret1[len(ret1)-w65c816.TraceTail(op)+13]) == uint32(old(ram[uint32(c.RK)<<16|uint32(c.PC+1)]))
+//@   ensures w65c816.Len(op, c.M == 0, c.X == 0) <= 1 ==> ret1[len(ret1)-w65c816.TraceTail(op)+11] == ' ' && ret1[len(ret1)-w65c816.TraceTail(op)+12] == ' ' && ret1[len(ret1)-w65c816.TraceTail(op)+13] == ' '
+//@   ensures w65c816.Len(op, c.M == 0, c.X == 0) > 2 ==> ret1[len(ret1)-w65c816.TraceTail(op)+14] == ' ' && w65c816.HexVal(ret1[len(ret1)-w65c816.TraceTail(op)+15])*16 + w65c816.HexVal(ret1[len(ret1)-w65c816.TraceTail(op)+16]) == uint32(old(ram[uint32(c.RK)<<16|uint32(c.PC+2)]))
+//@   ensures w65c816.Len(op, c.M == 0, c.X == 0) <= 2 ==> ret1[len(ret1)-w65c816.TraceTail(op)+14] == ' ' && ret1[len(ret1)-w65c816.TraceTail(op)+15] == ' ' && ret1[len(ret1)-w65c816.TraceTail(op)+16] == ' '
+//@   ensures w65c816.Len(op, c.M == 0, c.X == 0) > 3 ==> ret1[len(ret1)-w65c816.TraceTail(op)+17] == ' ' && w65c816.HexVal(ret1[len(ret1)-w65c816.TraceTail(op)+18])*16 + w65c816.HexVal(ret1[len(ret1)-w65c816.TraceTail(op)+19]) == uint32(old(ram[uint32(c.RK)<<16|uint32(c.PC+3)]))
+//@   ensures w65c816.Len(op, c.M == 0, c.X == 0) <= 3 ==> ret1[len(ret1)-w65c816.TraceTail(op)+17] == ' ' && ret1[len(ret1)-w65c816.TraceTail(op)+18] == ' ' && ret1[len(ret1)-w65c816.TraceTail(op)+19] == ' '
+//@   ensures ret1[len(ret1)-w65c816.TraceTail(op)+21] == w65c816.TraceName(op)[0] && ret1[len(ret1)-w65c816.TraceTail(op)+22] == w65c816.TraceName(op)[1] && ret1[len(ret1)-w65c816.TraceTail(op)+23] == w65c816.TraceName(op)[2]
+//@   ensures w65c816.Mode(op) == "rel8" ==> w65c816.HexVal(ret1[len(ret1)-w65c816.TraceTail(op)+31])*4096 + w65c816.HexVal(ret1[len(ret1)-w65c816.TraceTail(op)+32])*256 + w65c816.HexVal(ret1[len(ret1)-w65c816.TraceTail(op)+33])*16 + w65c816.HexVal(ret1[len(ret1)-w65c816.TraceTail(op)+34]) == uint32(c.PC + 2 + uint16(int8(old(ram[uint32(c.RK)<<16|uint32(c.PC+1)]))))
+//@   ensures c.M == 0 ==> w65c816.HexVal(ret1[len(ret1)-70+42])*4096 + w65c816.HexVal(ret1[len(ret1)-70+43])*256 + w65c816.HexVal(ret1[len(ret1)-70+44])*16 + w65c816.HexVal(ret1[len(ret1)-70+45]) == uint32(c.RA)
+//@   ensures c.M != 0 ==> ret1[len(ret1)-70+42] == '-' && ret1[len(ret1)-70+43] == '-' && w65c816.HexVal(ret1[len(ret1)-70+44])*16 + w65c816.HexVal(ret1[len(ret1)-70+45]) == uint32(c.RAl)
+//@   ensures c.X == 0 ==> w65c816.HexVal(ret1[len(ret1)-70+49])*4096 + w65c816.HexVal(ret1[len(ret1)-70+50])*256 + w65c816.HexVal(ret1[len(ret1)-70+51])*16 + w65c816.HexVal(ret1[len(ret1)-70+52]) == uint32(c.RX) && w65c816.HexVal(ret1[len(ret1)-70+56])*4096 + w65c816.HexVal(ret1[len(ret1)-70+57])*256 + w65c816.HexVal(ret1[len(ret1)-70+58])*16 + w65c816.HexVal(ret1[len(ret1)-70+59]) == uint32(c.RY)
+//@   ensures c.X != 0 ==> ret1[len(ret1)-70+49] == '-' && ret1[len(ret1)-70+50] == '-' && w65c816.HexVal(ret1[len(ret1)-70+51])*16 + w65c816.HexVal(ret1[len(ret1)-70+52]) == uint32(c.RXl) && ret1[len(ret1)-70+56] == '-' && ret1[len(ret1)-70+57] == '-' && w65c816.HexVal(ret1[len(ret1)-70+58])*16 + w65c816.HexVal(ret1[len(ret1)-70+59]) == uint32(c.RYl)
+//@   ensures ret1[len(ret1)-70+61] == ite(c.N > 0, 'N', '-')
+//@   ensures ret1[len(ret1)-70+62] == ite(c.V > 0, 'V', '-')
+//@   ensures ret1[len(ret1)-70+63] == ite(c.M > 0, 'M', '-')
+//@   ensures ret1[len(ret1)-70+64] == ite(c.X > 0, 'X', '-')
+//@   ensures ret1[len(ret1)-70+65] == ite(c.D > 0, 'D', '-')
+//@   ensures ret1[len(ret1)-70+66] == ite(c.I > 0, 'I', '-')
+//@   ensures ret1[len(ret1)-70+67] == ite(c.Z > 0, 'Z', '-')
+//@   ensures ret1[len(ret1)-70+68] == ite(c.C > 0, 'C', '-')
+//@   assigns c.Bus.EA, c.Bus.Write
+
+func Trace65(c *cpu65c816.CPU, ram *[1 << 24]byte, op byte) []byte {
+	var oa [100]byte
+	return c.DisassembleCurrentPC(oa[:0])
+}
+
+// cpualt renders its trace through fmt: the text is not modelled, the frame is (only the bus's last-data byte).
+
+//@ lemma TraceAlt property C14
+//@   harness flatalt cpu=c ram=ram op=op
+//@   nosafety
+//@   assigns c.Bus.M
+
+func TraceAlt(c *cpualt.CPU, ram *[1 << 24]byte, op byte, w io.Writer) { c.DisassembleCurrentPC(w) }
